@@ -2642,8 +2642,11 @@ def _r8_keys_survive(ctx, rid, f0, fv, flow: "_KeyFlow", sinks, what: str, label
                         and isinstance(e.left, ast.Name) and e.left.id == kexpr.id:
                     guard = a
                     break
-        if guard is not None and not any(isinstance(x, ast.Raise) or (isinstance(x, ast.stmt) and _is_warn(ctx, fv, x))
-                                         for b in guard.body + guard.orelse for x in ast.walk(b)):
+        reported = guard is not None and any(isinstance(x, ast.Raise) or (isinstance(x, ast.stmt) and _is_warn(ctx, fv, x))
+                                             for b in guard.body + guard.orelse for x in ast.walk(b))
+        if reported:
+            continue            # the removed entry is reported in the same branch
+        if guard is not None:
             ctx.violation(rid, f0, st, f"{what}: `{norm(st, 60)}` removes a supplied entry under the test `{ast.unparse(guard.test)}` without a raise or "
                                        f"warning: a value addressed to a variable that does not exist is dropped before the consumer that would "
                                        f"report it (KeyError in the node IR) sees it", label=label)
